@@ -105,6 +105,82 @@ var extReadOnlyMethods = map[string]bool{"Equal": true, "IsZero": true, "IsOne":
 	"Logger": true, "With": true, "Debug": true, "Info": true, "Warn": true, "Trace": true, "CurveID": true, "Bit": true, "Coefficients": true, "Clone": true, "Commit": true,
 	"NbConstraints": true, "ProveKnowledge": true, "Load": true, "Wait": true, "RLock": true, "RUnlock": true, "Lock": true, "Unlock": true, "Done": true, "Add": false}
 
+// newFrameAnalysis runs the summary computation over all loaded functions
+func newFrameAnalysis(eng *Engine) (*frameAnalysis, []*ssa.Function) {
+	fa := &frameAnalysis{eng: eng, sums: map[*ssa.Function]*fnSummary{}, byName: map[string][]*ssa.Function{}, assumes: map[string]bool{}}
+	fns := eng.allFunctions()
+	for _, f := range fns {
+		fa.sums[f] = &fnSummary{fn: f, wv: map[wkey]writeInfo{}, w: map[region]writeInfo{}, ret: map[int]baseSet{}, retFld: map[int]map[int]baseSet{}}
+		if f.Signature.Recv() != nil {
+			fa.byName[f.Name()] = append(fa.byName[f.Name()], f)
+		}
+	}
+	for iter := 0; iter < 30; iter++ {
+		fa.changed = false
+		for _, f := range fns {
+			fa.analyse(fa.sums[f])
+		}
+		if !fa.changed {
+			break
+		}
+	}
+	return fa, fns
+}
+
+// checkAssigns: the `assigns` clause of a verified contract is itself an obligation: every region the
+// function may write (provenance summary) must belong to a parameter named in the clause.
+func checkAssigns(eng *Engine, fa *frameAnalysis, fn *ssa.Function, con *Contract) []*EffectObl {
+	sum := fa.sums[fn]
+	if sum == nil {
+		return nil
+	}
+	allowed := map[string]bool{}
+	for _, a := range con.Assigns {
+		if b := baseIdent(a.E); b != "" {
+			allowed[b] = true
+		}
+		if gc, ok := a.E.(ECall); ok && len(gc.Args) > 0 {
+			// ghost state is not program memory
+			continue
+		}
+	}
+	var bad []string
+	for wk, wi := range sum.wv {
+		r := wk.r
+		name := "package-level state"
+		if r.param >= 0 && r.param < len(fn.Params) {
+			name = fn.Params[r.param].Name()
+			if allowed[name] || (r.param == 0 && fn.Signature.Recv() != nil && allowed["recv"]) {
+				continue
+			}
+		} else if r.param >= len(fn.Params) {
+			k := r.param - len(fn.Params)
+			if k < len(fn.FreeVars) {
+				name = fn.FreeVars[k].Name()
+				if allowed[name] {
+					continue
+				}
+			}
+		}
+		bad = append(bad, name+": "+wi.why)
+	}
+	sort.Strings(bad)
+	o := &EffectObl{Name: funcShort(fn) + "#assigns", Kind: "assigns", OK: len(bad) == 0, Pos: eng.relPos(fn.Pos()),
+		Text: "the function writes only memory named in its assigns clause (or memory it allocates)"}
+	if len(bad) > 0 {
+		if len(bad) > 3 {
+			bad = bad[:3]
+		}
+		o.Text += ": writes through " + strings.Join(bad, " | ")
+		o.Detail = strings.Join(bad, " | ")
+	}
+	for a := range fa.assumes {
+		o.Assumes = append(o.Assumes, a)
+	}
+	sort.Strings(o.Assumes)
+	return []*EffectObl{o}
+}
+
 func runFrames(eng *Engine, cfg *EffectCfg) []*EffectObl {
 	fa := &frameAnalysis{eng: eng, sums: map[*ssa.Function]*fnSummary{}, byName: map[string][]*ssa.Function{}, assumes: map[string]bool{}}
 	fns := eng.allFunctions()
